@@ -507,8 +507,10 @@ func hasRequiredField(typeDef TypeDef) bool {
 
 // ExecuteRoute executes a route with the given request
 func (i *Interpreter) ExecuteRoute(route *Route, request *Request) (*Response, error) {
-	// Create a new environment for the route
+	// Create a new environment for the route, with the request's own
+	// evaluation depth counter
 	routeEnv := NewChildEnvironment(i.globalEnv)
+	routeEnv.depth = new(int64)
 
 	// Extract path parameters
 	params, err := extractPathParams(route.Path, request.Path)
